@@ -642,7 +642,7 @@ def C09(infos: List[EnumInfo], ctx: dict):
         for im in dinfo.sem.get("impls", []):
             if im.get("derive"):
                 have_derives.add(im["derive"])
-        for p in builtin + [x.split("::")[-1] for x in es.disc_derives]:
+        for p in [x.split("::")[-1] for x in es.disc_derives]:
             rows += 1
             if p not in have_derives:
                 out.append(Violation("C09", "requested derives take effect on the generated type", "C09:derive-missing:%s" % ("builtin" if p in builtin else "requested"),
